@@ -13,6 +13,8 @@ NoDefs == << >>
 NQ == ("N" :> SObj(Props2("q", SInt, "r", SStr), {"q"}))
 NFlat == ("N" :> With(SObj(Props1("q", SInt), {"q"}), "additionalProperties", SInt))
 NNest == ("N" :> SObj(Props2("q", SInt, "r", With(SInt, "default", JInt(9))), {"q"}))
+NClosed == ("N" :> SObjClosed(Props2("q", SInt, "r", SStr), {"q"}))
+NAddl == ("N" :> With(SObj(Props2("q", SInt, "r", SStr), {"q"}), "additionalProperties", SInt))
 Col == ("C" :> EnumS(<<JS(<<"r">>), JS(<<"g">>)>>))
 ExtE == ("E" :> SOneOf(<< EnumS(<<JS(<<"U">>)>>), ExtVar("V", SInt) >>))
 IntE == ("E" :> SOneOf(<< IntVar(<<"a">>, Props1("x", SInt), {"x"}, FALSE), IntVar(<<"b">>, << >>, {}, FALSE) >>))
@@ -59,6 +61,15 @@ Kinds == <<
   K("struct-bad-member", SRef("N"), JObj1("q", JS(<<"x">>)), NQ),
   K("struct-nested-default", SRef("N"), JObj1("q", JInt(7)), NNest),
   K("struct-flatten", SRef("N"), JObj2("q", JInt(1), "zz", JInt(2)), NFlat),
+  (* struct defaults: {valid, unknown key, unknown key of the wrong type} x {open, closed, typed additionalProperties} *)
+  K("struct-open-unknown-key", SRef("N"), JObj2("q", JInt(7), "zz", JInt(1)), NQ),
+  K("struct-closed-ok", SRef("N"), JObj1("q", JInt(7)), NClosed),
+  K("struct-closed-unknown-key", SRef("N"), JObj2("q", JInt(7), "zz", JInt(1)), NClosed),
+  K("struct-closed-missing-req", SRef("N"), JObj1("r", JS(<<"z">>)), NClosed),
+  K("struct-addl-ok", SRef("N"), JObj2("q", JInt(7), "zz", JInt(1)), NAddl),
+  K("struct-addl-bad-extra", SRef("N"), JObj2("q", JInt(7), "zz", JS(<<"x">>)), NAddl),
+  K("vec-of-struct-unknown-key", SArr(SRef("N")), JArr(<<JObj2("q", JInt(7), "zz", JInt(1))>>), NClosed),
+  K("opt-struct-unknown-key", SNullable(SRef("N")), JObj2("q", JInt(7), "zz", JInt(1)), NClosed),
   K("enum-g", SRef("C"), JS(<<"g">>), Col), K("enum-bad", SRef("C"), JS(<<"b","l","u","e">>), Col),
   K("ext-unit", SRef("E"), JS(<<"U">>), ExtE), K("ext-data", SRef("E"), JObj1("V", JInt(1)), ExtE),
   K("ext-bad", SRef("E"), JObj1("W", JInt(1)), ExtE),
